@@ -5,11 +5,13 @@
    last version; a run followed by a second run with no stamp written in between is handed nothing, and the job's own
    stamps do not re-trigger it; the count of a filtered archetype is the number of positions in flagged chunks.
    The history-level statements over scripts (entities may be created, never destroyed or moved) are in the second half
-   of this file, proofs in proofs/VersionHistory.v.  Not covered: the chunk-size resolution (resolve_chunk) and histories
-   with destruction, removal or archetype moves. *)
+   of this file, proofs in proofs/VersionHistory.v; chunk precision over histories WITH DESTRUCTION (destroyNow, swap-remove
+   relocation, recycled ids) is at the end, proofs in proofs/VersionDestroyPrecise.v.  Not covered: the chunk-size
+   resolution (resolve_chunk), quiescence over histories with destruction, archetype moves. *)
 Require Import Coq.Lists.List Coq.NArith.NArith Coq.ZArith.ZArith Coq.Arith.Arith Coq.micromega.Lia.
 From Mustache Require Import Res Iter Manager Palette Properties_C07.
-From Mustache.proofs Require Import VersionProofs IterCover VersionHistory.
+From Mustache.proofs Require Import VersionProofs IterCover VersionHistory
+  VersionDestroyArch VersionDestroyInv VersionDestroyStep VersionDestroyHist VersionDestroyPrecise.
 Import ListNotations.
 
 (* ---- (2) chunk-precise: flag k and row k of the new stamps are check_and_set of the input row k alone ---- *)
@@ -369,4 +371,130 @@ Proof.
   split; [vm_compute; reflexivity|]. split; [vm_compute; reflexivity|].
   unfold checks_all. let x := eval vm_compute in (archs s0_ex) in replace (archs s0_ex) with x by (vm_compute; reflexivity).
   intro F. inversion F as [|? ? H _]; subst. apply H; vm_compute; reflexivity.
+Qed.
+
+(* ==================================================================================================================== *)
+(* CHUNK PRECISION OVER HISTORIES WITH DESTRUCTION (proofs/VersionDestroyPrecise.v; alphabet vopd, invariant VInvD and proper
+   scripts: see Properties_C07.v).
+   op_stamps_d st o ai k i -- operation o, executed in st, writes the stamp of (archetype ai, version chunk k, component
+   index i): for an operation of the old alphabet op_stamps (mutable access / dirty mark, run of a writing job that is handed
+   that chunk, arrival of a created entity); for VDestroyNow h, h alive in archetype ai: k is the version chunk of h's slot
+   (the DEPARTURE; the former last member arrives there) or the version chunk of the last slot (the one the RELOCATED
+   member left) -- Archetype::remove stamps every component of both.  stamped_in_d: some operation of the script does. *)
+
+(* one operation: every stamp of the new state is at most the stamp of the same (archetype, chunk, component) before (stampof:
+   0 for an archetype that did not exist), or the operation wrote it -- nothing else moves a stamp up, in particular the
+   recycling of ids and the cutting of stale version chunks do not *)
+Theorem C11_stamp_source_with_destruction : forall st o st' out_,
+  VInvD st -> (wv (fst st) + 1 < WV_NULL)%N -> properb (fst st) o = true -> dstep st o = Ok (st', out_) ->
+  forall ai a' k i, nth_error (archs (fst st')) ai = Some a' -> i < length (am_gver a') ->
+    (nth (length (am_gver a') * k + i) (am_cver a') 0 <= stampof (fst st) ai k i)%N \/ op_stamps_d st o ai k i.
+Proof. exact stamp_source_d. Qed.
+Print Assumptions C11_stamp_source_with_destruction.
+
+(* jn ran with work; then any proper script over the extended alphabet without a run of jn; then jn runs: every entity h it
+   is handed sits at a position idx of an archetype ai such that, in between, the stamp of (ai, version chunk idx / chunk
+   size, component index i) was written, for a component index i that jn checks.  always_checks j: j checks some component
+   in every archetype it can match (e.g. it checks a component it requires: always_checks_intro) *)
+Theorem C11_history_precise_with_destruction :
+  forall n cis setup s0 js pre st0 jn j p0 t0 w0 c0 st1 out0 h0 mid st2 par tov wk cap st3 out_ h,
+  population n cis setup s0 -> fresh_jobs js ->
+  (N.of_nat (length pre) + N.of_nat (length mid) + 2 < WV_NULL)%N ->
+  proper_run pre (s0, js) = true -> drun pre (s0, js) = Ok st0 ->
+  nth_error (snd st0) jn = Some j -> always_checks j ->
+  vstep st0 (VRun jn p0 t0 w0 c0) = Ok (st1, out0) -> handed out0 h0 ->
+  no_run_d jn mid -> proper_run mid st1 = true -> drun mid st1 = Ok st2 -> 0 < cap ->
+  vstep st2 (VRun jn par tov wk cap) = Ok (st3, out_) -> handed out_ h ->
+  exists ai a idx i, nth_error (archs (fst st2)) ai = Some a /\ nth_error (am_ents a) idx = Some h /\
+    jmatch j a = true /\ In i (jcheck j a) /\ stamped_in_d ai (idx / am_chunk a) i st1 mid.
+Proof. exact C11_precise_d_pop. Qed.
+Print Assumptions C11_history_precise_with_destruction.
+
+Theorem C11_history_precise_with_destruction_from_invariant :
+  forall st0 jn j p0 t0 w0 c0 st1 out0 h0 mid st2 par tov wk cap st3 out_ h,
+  VInvD st0 -> (wv (fst st0) + N.of_nat (length mid) + 2 < WV_NULL)%N ->
+  nth_error (snd st0) jn = Some j -> always_checks j ->
+  vstep st0 (VRun jn p0 t0 w0 c0) = Ok (st1, out0) -> handed out0 h0 ->
+  no_run_d jn mid -> proper_run mid st1 = true -> drun mid st1 = Ok st2 -> 0 < cap ->
+  vstep st2 (VRun jn par tov wk cap) = Ok (st3, out_) -> handed out_ h ->
+  exists ai a idx i, nth_error (archs (fst st2)) ai = Some a /\ nth_error (am_ents a) idx = Some h /\
+    jmatch j a = true /\ In i (jcheck j a) /\ stamped_in_d ai (idx / am_chunk a) i st1 mid.
+Proof. exact C11_precise_d_core. Qed.
+Print Assumptions C11_history_precise_with_destruction_from_invariant.
+
+Theorem C11_always_checks_intro : forall j c,
+  c < MASK_BITS -> mhas (j_check j) c = true -> mhas (job_required_mask j) c = true -> always_checks j.
+Proof. exact always_checks_intro. Qed.
+Print Assumptions C11_always_checks_intro.
+
+(* non-vacuity: update(); run of job 0 (everything)  |  world update; destroyNow of the first entity -- (4,0) moves into slot
+   0 --; a dirty mark on the unchecked component 0 of entity (3,0); manager update  |  run of job 0: it is handed version
+   chunk 0 -- (4,0) and (1,0) -- and nothing of version chunk 1; the stamp of (archetype 0, chunk 0, component index 1) was
+   written by the destroyNow *)
+Definition middp_ex : list vopd :=
+  [VOld (VUpdate true); VDestroyNow 0 (0, 0)%N; VOld (VMarkDirty (3, 0)%N 0); VOld (VUpdate false)].
+Definition st2dp_ex : vstate := get_res (drun middp_ex st1q_ex) vst_dummy.
+
+Lemma always_checks_job11 : forall j, nth_error jobs11_ex 0 = Some j -> always_checks j.
+Proof. intros j E. inversion E; subst j. apply (always_checks_intro _ 1); [unfold MASK_BITS; lia|reflexivity|vm_compute; reflexivity]. Qed.
+
+Example C11_history_precise_with_destruction_example :
+  exists j out0 st3 out_ a,
+  population 4 cis2 setup_ex s0_ex /\ fresh_jobs jobs11_ex /\
+  (N.of_nat (length [VOld (VUpdate true)]) + N.of_nat (length middp_ex) + 2 < WV_NULL)%N /\
+  proper_run [VOld (VUpdate true)] (s0_ex, jobs11_ex) = true /\ drun [VOld (VUpdate true)] (s0_ex, jobs11_ex) = Ok st0q_ex /\
+  nth_error (snd st0q_ex) 0 = Some j /\ always_checks j /\
+  vstep st0q_ex (VRun 0 false 0 0 16) = Ok (st1q_ex, out0) /\ handed out0 (0, 0)%N /\
+  no_run_d 0 middp_ex /\ proper_run middp_ex st1q_ex = true /\ drun middp_ex st1q_ex = Ok st2dp_ex /\ 0 < 16 /\
+  vstep st2dp_ex (VRun 0 true 0 3 16) = Ok (st3, out_) /\ handed out_ (4, 0)%N /\
+  handles_of out_ = [(4, 0); (1, 0)]%N /\
+  (* the conclusion for (4,0) *)
+  nth_error (archs (fst st2dp_ex)) 0 = Some a /\ nth_error (am_ents a) 0 = Some (4, 0)%N /\ jmatch j a = true /\ In 1 (jcheck j a) /\
+  stamped_in_d 0 (0 / am_chunk a) 1 st1q_ex middp_ex /\
+  map (fun a => (am_ents a, am_cver a)) (archs (fst st2dp_ex)) = [([(4, 0); (1, 0); (2, 0); (3, 0)], [3; 3; 3; 1; 3; 3])]%N.
+Proof.
+  eexists. eexists. eexists. eexists. eexists.
+  split; [apply population_ex|]. split; [apply fresh_jobs11|]. split; [vm_compute; reflexivity|].
+  split; [vm_compute; reflexivity|]. split; [vm_compute; reflexivity|]. split; [vm_compute; reflexivity|].
+  split; [apply always_checks_job11; reflexivity|].
+  split; [vm_compute; reflexivity|]. split.
+  { vm_compute. eexists. eexists. split; [left; reflexivity|]. split; [left; reflexivity|reflexivity]. }
+  split; [repeat constructor; discriminate|]. split; [vm_compute; reflexivity|]. split; [vm_compute; reflexivity|]. split; [lia|].
+  split; [vm_compute; reflexivity|]. split.
+  { vm_compute. eexists. eexists. split; [left; reflexivity|]. split; [left; reflexivity|reflexivity]. }
+  split; [vm_compute; reflexivity|]. split; [vm_compute; reflexivity|]. split; [vm_compute; reflexivity|].
+  split; [vm_compute; reflexivity|]. split; [vm_compute; left; reflexivity|].
+  split; [|vm_compute; reflexivity].
+  eapply sid_later; [vm_compute; reflexivity|]. apply sid_here. cbn [op_stamps_d fst].
+  eexists. eexists. split; [vm_compute; reflexivity|]. split; [vm_compute; reflexivity|]. split; [reflexivity|].
+  split; [vm_compute; reflexivity|]. left. vm_compute. reflexivity.
+Qed.
+
+Lemma VInvD_st0q_ex : VInvD st0q_ex.
+Proof.
+  destruct population_ex as (Hp & _).
+  refine (proj1 (C07_history_invariants_with_destruction 4 cis2 setup_ex s0_ex jobs11_ex [VOld (VUpdate true)] st0q_ex Hp fresh_jobs11 _ _ _));
+    vm_compute; reflexivity.
+Qed.
+
+Example C11_history_precise_with_destruction_from_invariant_example :
+  exists j out0 st3 out_ out_t st',
+  VInvD st0q_ex /\ (wv (fst st0q_ex) + N.of_nat (length middp_ex) + 2 < WV_NULL)%N /\
+  nth_error (snd st0q_ex) 0 = Some j /\ always_checks j /\
+  vstep st0q_ex (VRun 0 false 0 0 16) = Ok (st1q_ex, out0) /\ handed out0 (0, 0)%N /\
+  no_run_d 0 middp_ex /\ proper_run middp_ex st1q_ex = true /\ drun middp_ex st1q_ex = Ok st2dp_ex /\ 0 < 16 /\
+  vstep st2dp_ex (VRun 0 true 0 3 16) = Ok (st3, out_) /\ handed out_ (4, 0)%N /\
+  (* hypotheses of the one-step theorem *)
+  (wv (fst st0q_ex) + 1 < WV_NULL)%N /\ properb (fst st0q_ex) (VDestroyNow 0 (2, 0)%N) = true /\
+  dstep st0q_ex (VDestroyNow 0 (2, 0)%N) = Ok (st', out_t).
+Proof.
+  eexists. eexists. eexists. eexists. eexists. eexists.
+  split; [exact VInvD_st0q_ex|]. split; [vm_compute; reflexivity|]. split; [vm_compute; reflexivity|].
+  split; [apply always_checks_job11; reflexivity|].
+  split; [vm_compute; reflexivity|]. split.
+  { vm_compute. eexists. eexists. split; [left; reflexivity|]. split; [left; reflexivity|reflexivity]. }
+  split; [repeat constructor; discriminate|]. split; [vm_compute; reflexivity|]. split; [vm_compute; reflexivity|]. split; [lia|].
+  split; [vm_compute; reflexivity|]. split.
+  { vm_compute. eexists. eexists. split; [left; reflexivity|]. split; [left; reflexivity|reflexivity]. }
+  split; [vm_compute; reflexivity|]. split; vm_compute; reflexivity.
 Qed.
